@@ -119,7 +119,8 @@ package agentstorage
 //@   requires twf(t) && src != nil
 //@   requires no_token_held: forall i int :: 0 <= i && i < len(t.pieces) ==> !t.pieces[i].mine
 //@   nopanic
-//@   modifies every piece.status, every piece.mine, t.numComplete.val, t.committed.val
+//@   modifies every piece.status, every piece.mine, t.numComplete.val, t.committed.val, map t.cads.incache, t.cads.moves
+//@   ensures reports_complete_only_after_the_move: t.committed.val && !old(t.committed.val) ==> t.cads.moves > old(t.cads.moves)
 //@   assert commit_after_all_pieces: at caDownloadStore.MoveDownloadFileToCache#0 :: t.numComplete.val == len(t.pieces)
 //@   ensures token_not_leaked: 0 <= pi && pi < len(t.pieces) ==> t.pieces[pi].mine == old(t.pieces[pi].mine)
 //@   ensures complete_only_when_all: t.committed.val ==> old(t.committed.val) || t.numComplete.val == len(t.pieces)
@@ -133,6 +134,7 @@ package agentstorage
 // A restored torrent is committed to the cache only if every restored piece is complete.
 //@ func NewTorrent
 //@   requires cads != nil && mi != nil
+//@   modifies map cads.incache, cads.moves
 //@   assert commit_needs_all_pieces: at caDownloadStore.MoveDownloadFileToCache#0 :: numComplete == len(pieces)
 
 //@ func Torrent.Complete
